@@ -114,6 +114,28 @@ func (e *Exec) invoke(t *Thread, f *Frame, clo *Closure, args []Value, call *ssa
 		e.Stats.Stubs[fnName(clo.Fn)+" -> "+r.Name()] = true
 		clo = &Closure{Fn: r}
 	}
+	if fnName(clo.Fn) == "(*sync.Pool).Get" {
+		// model: the item put back last is handed out again (maximal reuse: aliasing bugs show);
+		// an empty pool calls New (or yields nil)
+		e.Stats.Stubs["(*sync.Pool).Get"] = true
+		pp := args[0].(Ptr)
+		if items := e.pools[pp.Obj]; len(items) > 0 {
+			v := items[len(items)-1]
+			e.pools[pp.Obj] = items[:len(items)-1]
+			return finish(v)
+		}
+		st := e.load(pp).(*Struct)
+		newFn, _ := st.F[len(st.F)-1].(*Closure)
+		if newFn == nil {
+			return finish(Iface{})
+		}
+		var cv ssa.Value
+		if call != nil {
+			cv = call
+		}
+		e.pushCall(t, newFn, nil, cv, rk)
+		return stCont
+	}
 	if fnName(clo.Fn) == "(*sync.Once).Do" {
 		o := e.syncObj(args[0].(Ptr))
 		if !granted {
